@@ -195,6 +195,9 @@ def check_config(cfg, wd, sieve, stats):
         sizes = {k: len(x) for k, x in files.items()}
         hdr = {k: x[:20].hex() for k, x in files.items()}
         bad('.fjm bytes differ between the routes', 'byte-identical files', {'sizes': sizes, 'headers': hdr})
+    if d == 'path' and not (d1.exists() and d2.exists() and d3.exists()):
+        bad('a debug-label file asked for with -d PATH was not written', 'written by every route',
+            {k: p_.exists() for k, p_ in (('one-step', d1), ('two-step', d2), ('api', d3))})
     if d == 'path' and d1.exists() and d2.exists() and d3.exists():
         if not (d1.read_bytes() == d2.read_bytes() == d3.read_bytes()):
             bad('debug-label files differ between the routes', 'byte-identical', {k: len(p.read_bytes()) for k, p in (('one', d1), ('two', d2), ('api', d3))})
